@@ -28,6 +28,24 @@ TABLE = {
   text="Bounded symbolic execution: split_template_path on symbolic names (search) and on all names <= 5 chars over the alphabet ./\\a: (selector-decoded, exhausted); FileSystemLoader (single and multiple search paths), PackageLoader, ChoiceLoader and PrefixLoader on a scratch tree with a sentinel outside the search path, names of 1-3 segments from a 12-entry fragment table (parent refs, dots, empties, backslash, directories shadowing files), opened files recorded through an audit hook and compared with a reference resolver; choice/prefix resolution order over a symbolic 3x2 presence matrix.",
   note="Trusted: CrossHair, z3, os.path as reference. Symlinks, Windows separators and zip packages are outside the bound.",
   technique="symbolic execution (CrossHair/z3) with solver-exhausted name selectors against real loaders + audit hook"),
+ "C12": dict(
+  text="E2: the live end-of-tag rules (block/variable/comment/raw end) of Lexer(env).rules are translated to z3 and shown language-equal to the documented grammar for both trim_blocks settings and several delimiter sets (all strings <= 40 chars). E1 mode B: cases pre-A-T-B-post (6 left-tag kinds x 3 signs x 14 whitespace/text runs x 6 right-tag kinds x 3 signs, all four trim/lstrip settings) are enumerated by the solver and pushed through the real lexer/parser/compiler; rendered output, raw-token concatenation, dropped whitespace and token line numbers must equal a reference trimming model transcribed from the documentation.",
+  note="Trusted: the reference model in vfw/wsmodel.py (documentation transcription), regex->z3 translation, z3, CrossHair path exhaustion. Effects are local to one text run and its two neighbouring tags; longer templates are outside the bound.",
+  technique="regex-to-SMT language equality (z3) + solver-exhausted whitespace-control cases through the real pipeline vs documented-rule model",
+  engine="E2 rx->SMT + E1 CrossHair/z3"),
+ "C39": dict(
+  text="Solver-exhausted (mode B) sources: the C12 case family and 1-2 (3 thorough) pieces from a 16-entry table of multi-line constructs (expressions/comments/raw/set blocks spanning lines, CR/LF/CRLF, strip markers) and a 10-entry table of line statements/comments, in trim/lstrip and keep_trailing_newline variants; Environment.lex output is checked with a model-free oracle (tokens in order, only whitespace missing and only before a tag that strips it, each token's line = 1 + line breaks before its start) and against the C12 model (exact dropped whitespace); wrapped token stream line numbers agree.",
+  note="Trusted: wsmodel.check_tokens oracle, CrossHair path exhaustion, z3. Sources outside the piece tables are outside the bound.",
+  technique="solver-exhausted source skeletons through the real lexer vs model-free position oracle + documented-rule model"),
+ "C11": dict(
+  text="E2: newline_re is language-equal to {CRLF, CR, LF}; any string on which the live root directive rule can match contains a configured start delimiter or line prefix (3 delimiter sets, with/without line prefixes, strings <= 30). E1 mode B: delimiter-free sources of <= 3 (4) pieces from an 11-entry character table (partial delimiter characters, all line-break forms, non-ASCII) in all newline_sequence x keep_trailing_newline configurations and under every kind of finalize hook; comment and raw bodies of delimiter look-alikes with 3 tails, 2 delimiter sets, trim/lstrip on/off.",
+  note="Trusted: regex->z3 translation, z3, CrossHair path exhaustion. Free-form Unicode text through tokeniter is outside the bound (only the table's pieces).",
+  technique="regex-to-SMT (z3) lemmas on the live rule table + solver-exhausted plain-text/comment/raw sources through the real pipeline",
+  engine="E2 rx->SMT + E1 CrossHair/z3"),
+ "C13": dict(
+  text="Mode B, solver-exhausted selectors with native runs: the C12 case family under alternative delimiter sets (incl. shared-prefix ASP-like ones); for each of the 12 lexer cache-key options an environment differing in exactly that option, built as Environment / overlay / Template(), before or after the base was used, both orders, 2 base configurations - every render equals the same configuration rendered in isolation after clear_caches; whole-line block tags rewritten as line statements in a trimming+left-stripping environment (programs of <= 3 (4) lines).",
+  note="Trusted: CrossHair path exhaustion, z3, isolated renders as reference. Two known findings (blank lines after line statements; line comments keep their newline) are excluded and reported as KNOWN-FINDING.",
+  technique="solver-exhausted configuration/selectors with native differential runs against isolated-configuration reference"),
 }
 NOT_APPLICABLE = {
  "C31": "Not applicable to solver-based checking: compile_templates/ModuleLoader are file-system, zip and import-system effects with no symbolic input to vary; the property quantifies over template sets, not data (DESIGN.md section 5).",
